@@ -147,7 +147,9 @@ type SymEnv struct {
 	fields map[string]Aff // canonical lvalue path -> value
 	elems  map[string]Aff // "base[idx]" -> value stored on this path
 	names  map[types.Object]string
+	namedResults []types.Object
 	nCall  int
+	Hook   func(i int, ev Ev, sp *SymPath) // called before each event is executed
 	Self   *types.Func // the function being analysed: a self-recursive call is a re-dispatch, its effects are not applied
 	// Inline, when set, is asked for a summary of a package-local call; it returns true if it handled the call.
 	OnCall func(env *SymEnv, call *ast.CallExpr, name string) (Aff, bool)
@@ -172,8 +174,10 @@ func (e *SymEnv) clone() *SymEnv {
 		n.names[k] = v
 	}
 	n.nCall = e.nCall
+	n.namedResults = e.namedResults
 	n.OnCall = e.OnCall
 	n.Self = e.Self
+	n.Hook = e.Hook
 	return n
 }
 
@@ -382,7 +386,23 @@ func (e *SymEnv) Eval(x ast.Expr) Aff {
 		e.nCall++
 		return affAtom(fmt.Sprintf("%s%s(%s)#%d", recv, name, strings.Join(as, ","), e.nCall))
 	case *ast.CompositeLit:
-		return affAtom("lit:" + p.Str(v))
+		tn := ""
+		if v.Type != nil {
+			tn = p.Str(v.Type)
+		}
+		var parts []string
+		for _, el := range v.Elts {
+			if kv, ok := el.(*ast.KeyValueExpr); ok {
+				k := p.Str(kv.Key)
+				parts = append(parts, k+":"+e.Eval(kv.Value).String())
+			} else {
+				parts = append(parts, e.Eval(el).String())
+			}
+		}
+		if len(parts) > 8 {
+			return affAtom("lit:" + tn + "{…}")
+		}
+		return affAtom("lit:" + tn + "{" + strings.Join(parts, ",") + "}")
 	case *ast.FuncLit:
 		return affAtom("funclit")
 	case *ast.TypeAssertExpr:
@@ -479,6 +499,9 @@ func (e *SymEnv) SetField(path string, v Aff) { e.fields[path] = v }
 func (p *GoProg) ExecPath(pa *Path, env *SymEnv) *SymPath {
 	sp := &SymPath{Path: pa, Env: env}
 	for i, ev := range pa.Evs {
+		if env.Hook != nil {
+			env.Hook(i, ev, sp)
+		}
 		if ev.Br != nil {
 			sp.addCond(p, env, ev, i)
 			continue
@@ -502,6 +525,11 @@ func (p *GoProg) ExecPath(pa *Path, env *SymEnv) *SymPath {
 			}
 		case *ast.ReturnStmt:
 			sp.RetNode = s
+			if len(s.Results) == 0 {
+				for _, o := range env.namedResults {
+					sp.Ret = append(sp.Ret, env.vars[o])
+				}
+			}
 			for _, r := range s.Results {
 				if call, ok := ast.Unparen(r).(*ast.CallExpr); ok {
 					p.execCall(sp, env, call, s, i)
@@ -817,6 +845,7 @@ func (p *GoProg) NewFuncEnv(fd *ast.FuncDecl) *SymEnv {
 				o := p.ObjOf(n)
 				env.Name(o, "L:"+n.Name)
 				env.vars[o] = zeroOf(o)
+				env.namedResults = append(env.namedResults, o)
 			}
 		}
 	}
@@ -839,4 +868,71 @@ func (p *GoProg) SymPaths(fd *ast.FuncDecl, limit int, setup func(env *SymEnv)) 
 		out = append(out, p.ExecPath(pa, env))
 	}
 	return out, true
+}
+
+
+// Feasible prunes paths with self-contradictory conditions: a freshly created error compared equal to nil,
+// constant comparisons that are false, and a boolean atom taken both ways.
+func (sp *SymPath) Feasible() bool {
+	pos := map[string]bool{}
+	neg := map[string]bool{}
+	for _, c := range sp.Conds {
+		if c.Other != "" {
+			if strings.HasPrefix(c.Other, "branch:") {
+				continue
+			}
+			if strings.HasPrefix(c.Other, "!") {
+				neg[c.Other[1:]] = true
+			} else {
+				pos[c.Other] = true
+			}
+			continue
+		}
+		if c.L.IsConst() && c.R.IsConst() {
+			ok := true
+			switch c.Op {
+			case token.EQL:
+				ok = c.L.K == c.R.K
+			case token.NEQ:
+				ok = c.L.K != c.R.K
+			case token.LSS:
+				ok = c.L.K < c.R.K
+			case token.LEQ:
+				ok = c.L.K <= c.R.K
+			case token.GTR:
+				ok = c.L.K > c.R.K
+			case token.GEQ:
+				ok = c.L.K >= c.R.K
+			}
+			if !ok {
+				return false
+			}
+			continue
+		}
+		la, lok := c.L.SingleAtom()
+		ra, rok := c.R.SingleAtom()
+		if lok && rok {
+			isNew := func(a string) bool {
+				return strings.HasPrefix(a, "errors.New(") || strings.HasPrefix(a, "fmt.Errorf(") || strings.HasPrefix(a, "&") || strings.HasPrefix(a, "make(")
+			}
+			isNilish := func(a string) bool { return a == "nil" || strings.HasPrefix(a, "zero:") }
+			if (isNew(la) && isNilish(ra)) || (isNew(ra) && isNilish(la)) {
+				if c.Op == token.EQL {
+					return false
+				}
+			}
+			if isNilish(la) && isNilish(ra) && c.Op == token.NEQ {
+				return false
+			}
+			if la == ra && c.Op == token.NEQ {
+				return false
+			}
+		}
+	}
+	for k := range pos {
+		if neg[k] {
+			return false
+		}
+	}
+	return true
 }
